@@ -142,52 +142,72 @@ def final_kernel(ctx):
 
 
 def lagrange_kernel(ctx):
-    """per-factor form of the Lagrange coefficient: with x given, num *= (x - x_j), den *= (x_i - x_j) (RFC 9591 §4.2 /
-    the library's documented basis polynomial); the x = None arm must equal the other arm evaluated at x = 0 as a
-    rational function; result = num * invert(den)."""
+    """per-factor form of the Lagrange coefficient, decided on the per-iteration transfer of the two accumulators (engine D,
+    sa/paths.py): on x_j == x_i nothing changes; otherwise, with x given, num *= (x - x_j), den *= (x_i - x_j) (RFC 9591 §4.2 /
+    the library's documented basis polynomial); the x = None case must equal the other one evaluated at x = 0 as a rational
+    function; result = num * invert(den).  The accumulators are found from the result, whatever they are called and whether
+    they are two scalars or one pair."""
+    from ..paths import loop_transfer, component, Unbounded
     P = ctx.prog
     f = ctx.anchor(CORE + "compute_lagrange_coefficient")
     if not f:
         return
     v = FnView.get(P, f)
-    loops = f.loops()
     nd = lagrange_accs(f, v)
-    if nd is None or not loops:
-        ctx.violation("H", f.key, "lagrange-kernel:shape", "the result is not N * invert(D) for two loop accumulators N, D", f.loc)
+    lps = [lp for lp in loop_report(P, f) if nd and nd[0][0] in lp["acc"] and nd[1][0] in lp["acc"]]
+    if nd is None or len(lps) != 1:
+        ctx.violation("H", f.key, "lagrange-kernel:shape", "the result is not N * invert(D) for two accumulators N, D of one loop", f.loc)
         return
-    names = {"num": nd[0], "den": nd[1]}
-    hdr = frozenset({loops[0]["header"]})
+    lp = lps[0]
+    (ln, cn), (ld, cd) = nd
     opt_x = lambda t: t == ("arg", 2) or (is_call(t, name="map") and "option::Option" in t[1] and t[2][0] == ("arg", 2))
     given = lambda fa: (("pass" if fa[2] else "fail") if fa[0] == "succ" and opt_x(fa[1]) else None)
     item = next_item(lambda t: mentions(t, arg(1)))
-    leaves = [(lambda t: t[0] == "loopvar" and t[2] == names["num"], ("scal", "n")), (lambda t: t[0] == "loopvar" and t[2] == names["den"], ("scal", "d")),
+    xi = lambda t: strip_newtype_fields(t) == ("arg", 3) or (t[0] == "field" and strip_newtype_fields(t[1]) == ("arg", 3) and t[3] == "0")
+    xj = lambda t: item(strip_newtype_fields(t)) or (t[0] == "field" and item(strip_newtype_fields(t[1])) and t[3] == "0")
+    same = lambda fa: ("pass" if fa[4] else "fail") if (fa[0] == "cond" and fa[1] == "eq" and fa[3] is not None and
+                                                        ((xi(fa[2]) and xj(fa[3])) or (xi(fa[3]) and xj(fa[2])))) else None
+    n0, d0 = component(("loopvar", f.key, ln), cn), component(("loopvar", f.key, ld), cd)
+    leaves = [(lambda t: t == n0, ("scal", "n")), (lambda t: t == d0, ("scal", "d")),
               (lambda t: strip_newtype_fields(t) == ("some", ("arg", 2)) and t != ("some", ("arg", 2)), ("scal", "x")),
               (lambda t: strip_newtype_fields(t) == ("arg", 3) and t != ("arg", 3), ("scal", "xi")),
               (lambda t: t != strip_newtype_fields(t) and item(strip_newtype_fields(t)), ("scal", "xj"))]
+    sym, pm, pa = algebra.sym, algebra.pmul, algebra.padd
+    cases = {"same": [], "given": [], "none": []}
     try:
         al = Alg(leaves)
-        arms = {}
-        for nm in ("num", "den"):
-            d = defs_by_arm(f, v, names[nm], given, stop=hdr)
-            if len(d["pass"]) != 1 or len(d["fail"]) != 1:
-                raise Unanalysable("%s is not updated exactly once in each arm of `if let Some(x) = x`" % nm)
-            arms[nm] = (al.val(d["pass"][0])[1], al.val(d["fail"][0])[1])
-    except Unanalysable as e:
+        for p in loop_transfer(P, f, v, lp, {ln, ld}):
+            if p["end"] != "back":
+                continue
+            s_ = {same(fa) for fa in p["facts"]} - {None}
+            g_ = {given(fa) for fa in p["facts"]} - {None}
+            nv, dv = component(p["values"][ln], cn), component(p["values"][ld], cd)
+            if s_ == {"pass"}:
+                cases["same"].append((nv == n0, dv == d0))
+            elif s_ == {"fail"} and g_ in ({"pass"}, {"fail"}):
+                cases["given" if g_ == {"pass"} else "none"].append((al.val(nv)[1], al.val(dv)[1]))
+            else:
+                raise Unanalysable("an iteration path is not decided by `x_j == x_i` and `x is Some` (%s, %s)" % (s_, g_))
+    except (Unanalysable, Unbounded) as e:
         ctx.violation("H", f.key, "lagrange-kernel:unanalysable", "Lagrange update not analysable: %s" % e, f.loc)
         return
-    sym, pm, pa = algebra.sym, algebra.pmul, algebra.padd
+    ctx.check(bool(cases["same"]) and all(a and b for a, b in cases["same"]), "RED", f.key, "only-x_i-is-left-out",
+              "the iteration for x_j == x_i must leave numerator and denominator unchanged (and be the only one that does)", f.loc)
     want_num = pm(sym("n"), pa(sym("x"), sym("xj"), -1))
     want_den = pm(sym("d"), pa(sym("xi"), sym("xj"), -1))
-    ctx.check(arms["num"][0] == want_num and arms["den"][0] == want_den, "AGREE", f.key, "factor==(x-x_j)/(x_i-x_j)",
-              "with an evaluation point the Lagrange factor must be (x - x_j)/(x_i - x_j): found num' = %s, den' = %s"
-              % (show(("scal", arms["num"][0])), show(("scal", arms["den"][0]))), f.loc)
-    # None arm == Some arm at x = 0 (as rational functions): numS(0)*denN - numN*denS == 0
-    numS0 = algebra.psubst(arms["num"][0], {"x": ("scal", {})})
-    lhs = pm(numS0, arms["den"][1])
-    rhs = pm(arms["num"][1], arms["den"][0])
-    ctx.check(not pa(lhs, rhs, -1), "AGREE", f.key, "x=None-arm==x=0",
-              "the x = None arm of the Lagrange coefficient (num' = %s, den' = %s) is not the general arm evaluated at 0"
-              % (show(("scal", arms["num"][1])), show(("scal", arms["den"][1]))), f.loc)
+    ctx.check(bool(cases["given"]) and all(a == want_num and b == want_den for a, b in cases["given"]), "AGREE", f.key, "factor==(x-x_j)/(x_i-x_j)",
+              "with an evaluation point the Lagrange factor must be (x - x_j)/(x_i - x_j): found %s"
+              % [(show(("scal", a)), show(("scal", b))) for a, b in cases["given"]], f.loc)
+    # None case == Some case at x = 0 (as rational functions): numS(0)*denN - numN*denS == 0
+    good = bool(cases["none"]) and bool(cases["given"])
+    for (nS, dS) in cases["given"][:1]:
+        for (nN, dN) in cases["none"]:
+            numS0 = algebra.psubst(nS, {"x": ("scal", {})})
+            if pa(pm(numS0, dN), pm(nN, dS), -1) or not nN or not dN:
+                good = False
+    ctx.check(good, "AGREE", f.key, "x=None-arm==x=0",
+              "the x = None case of the Lagrange coefficient (%s) is not the general case evaluated at 0"
+              % [(show(("scal", a)), show(("scal", b))) for a, b in cases["none"]], f.loc)
     ctx.ok("AGREE", f.key, "result==num*invert(den)")
 
 
@@ -206,7 +226,8 @@ def total_of(P, f, v, t):
 
 
 def lagrange_accs(f, v):
-    """the result of compute_lagrange_coefficient is Ok(N * invert(D)?) for two loop-carried accumulators: their locals"""
+    """the result of compute_lagrange_coefficient is Ok(N * invert(D)?) for two loop-carried accumulators:
+    ((local, component), (local, component)); component None for a scalar local, "0"/"1" for a pair"""
     oks = ok_values(f, v)
     if len(oks) != 1 or not is_call(oks[0], name="mul"):
         return None
@@ -214,12 +235,19 @@ def lagrange_accs(f, v):
     if r[0] != "ok":
         return None
     inv = r[1][1] if r[1][0] == "map_err" else r[1]
-    if not is_call(inv, name="invert") or n[0] != "phi" or inv[2][0][0] != "phi":
+    if not is_call(inv, name="invert"):
         return None
-    d = inv[2][0]
-    if n[1][0] != f.key or d[1][0] != f.key or n[1][1] == d[1][1]:
+
+    def acc(t):
+        if t[0] == "phi" and t[1][0] == f.key:
+            return (t[1][1], None)
+        if t[0] == "field" and t[2] is None and t[1][0] == "phi" and t[1][1][0] == f.key:
+            return (t[1][1][1], t[3])
         return None
-    return (n[1][1], d[1][1])
+    a, b = acc(n), acc(inv[2][0])
+    if a is None or b is None or a == b:
+        return None
+    return (a, b)
 
 
 def roles(ctx):
@@ -306,16 +334,12 @@ def run(ctx):
                                                           ((xi(fa[2]) and xj(fa[3])) or (xi(fa[3]) and xj(fa[2])))) else None
         v = FnView.get(P, f)
         nd = lagrange_accs(f, v)
-        labels = {nd[0]: "num", nd[1]: "den"} if nd else {}
-        lr = reductions(ctx, f.key, adaptors={}, skip={"num": same, "den": same}, min_loops=1, labels=labels)
+        locs = {a[0] for a in nd} if nd else set()
+        lr = reductions(ctx, f.key, adaptors={}, skip={l: same for l in locs}, min_loops=1,
+                        labels={l: "num/den" for l in locs})
         if lr:
             ctx.check(lr[0]["iter_term"] is not None and strip_iter_calls(lr[0]["iter_term"]) == ("arg", 1),
                       "RED", f.key, "over-the-whole-set", "the Lagrange product must run over x_set.iter()", f.loc)
-        # num and den are updated together: the same blocks-level branch structure
-        acc = lr[0]["acc"] if lr else {}
-        by = {labels.get(l): len(bs) for l, bs in acc.items()}
-        ctx.check(by.get("num") == by.get("den") and by.get("num", 0) >= 1, "RED", f.key, "num-and-den-in-lock-step",
-                  "numerator and denominator of the Lagrange coefficient are not updated at the same sites (%s)" % by, f.loc)
     f = ctx.anchor(CORE + "derive_interpolating_value")
     if f:
         v = FnView.get(P, f)
@@ -346,9 +370,10 @@ def run(ctx):
                   "each signer's binding factor must be H1 of that signer's preimage, keyed by that signer", f.loc)
     f = ctx.anchor(CORE + "round1::encode_group_commitments")
     if f:
-        lr = reductions(ctx, f.key, adaptors={}, min_loops=1)
-        ctx.check(bool(lr) and lr[0]["iter_term"] == ("iter", ("arg", 1)), "RED", f.key, "over-the-whole-map",
-                  "the commitment list encoding must iterate the commitment map itself", f.loc)
+        reductions(ctx, f.key, adaptors={}, min_loops=0)
+        _, pv = commitment_entry_parts(P)
+        ctx.check(bool(pv) and pv["source"] == ("arg", 1), "RED", f.key, "over-the-whole-map",
+                  "the commitment list encoding must cover every entry of the commitment map itself, in order", f.loc)
     f = ctx.anchor(CORE + "compute_group_commitment")
     if f:
         reductions(ctx, f.key, adaptors={}, min_loops=0)
